@@ -20,6 +20,7 @@ CNT = z3.Function('count_nl', S_, I_)
 RFIND = z3.Function('rfind_nl', S_, I_)
 UF_USUB = z3.Function('unicodesub_repl', S_, S_)
 UF_CLEAN = z3.Function('cleanstring_keep', S_, S_)
+UF_STRSUB = z3.Function('stringsub_decoded', S_, S_)
 UF_NORMALIZE = z3.Function('css_normalize', S_, S_)
 
 
@@ -97,6 +98,8 @@ def _in_tk(I):
     M = p.engine.models
     M[T2.Tokenizer.unicodesub] = Model(lambda I2, a, k: Sym('str', UF_USUB(lift(a[1]))), 'Tokenizer.unicodesub(_repl, s): a function of s (decoding itself: regex lemmas + bounded check)', assumed=True)
     M[T2.Tokenizer.cleanstring] = Model(lambda I2, a, k: Sym('str', UF_CLEAN(lift(a[1]))), 'Tokenizer.cleanstring(repl, s): a function of s', assumed=True)
+    if hasattr(T2.Tokenizer, 'stringsub'):
+        M[T2.Tokenizer.stringsub] = Model(lambda I2, a, k: Sym('str', UF_STRSUB(lift(a[1]))), 'Tokenizer.stringsub(_replstring, s): a function of s (decoding itself: bounded check)', assumed=True)
     M[cssutils.helper.normalize] = Model(lambda I2, a, k: Sym('str', UF_NORMALIZE(lift(a[0]))), 'helper.normalize: a function of its argument', assumed=True)
     M[T2.normalize] = M[cssutils.helper.normalize]
     p.engine.inline.add(T2.has_at)
